@@ -10,6 +10,7 @@ import (
 	"fmt"
 	"os"
 	"runtime"
+	"runtime/debug"
 	"sync"
 
 	"github.com/onflow/atree"
@@ -201,11 +202,43 @@ func parallelCommitPreload(cfg Config, pc *PCase, st *CaseStats) error {
 					}
 				}
 			}
+			// a second, healthy storage whose commit directly follows a failing one (same goroutine, no
+			// garbage collection in between, so that pooled encoder state is handed over)
+			var victim *Engine
+			if pc.Fault == 2 {
+				if victim, err = build(); err != nil {
+					return err
+				}
+			}
+			gc := debug.SetGCPercent(-1)
 			var cerr error
 			if nondet {
 				cerr = e.St.NondeterministicFastCommit(w)
 			} else {
 				cerr = e.St.FastCommit(w)
+			}
+			if pc.Fault == 2 && cerr != nil {
+				// the caller carries on right after the failed commit: it touches its containers again
+				// (no worker of the failed commit may still be reading them) ...
+				for _, r := range e.Roots {
+					if r.HasHandle() && !r.IsMap {
+						_ = r.HA.Append(U64(7))
+					} else if r.HasHandle() && r.IsMap && r.Dig == nil {
+						_, _ = r.HM.Set(e.CB.Compare, e.CB.HashInput, U64(987654321), U64(1))
+					}
+				}
+				// ... and an unrelated storage commits: it must get exactly the registers it gets alone
+				verr := victim.St.FastCommit(1)
+				debug.SetGCPercent(gc)
+				if verr != nil {
+					return fmt.Errorf("commit of an unrelated storage right after a failed commit (encoder error) of another one failed: %v", verr)
+				}
+				if d := DiffRegs(ref.L.Regs, victim.L.Regs); d != "" {
+					return fmt.Errorf("commit of an unrelated storage right after a failed commit (encoder error) of another one wrote different registers than alone: %s", d)
+				}
+				st.label("commit_after_foreign_encode_failure")
+			} else {
+				debug.SetGCPercent(gc)
 			}
 			if pc.Fault != 0 {
 				if cerr == nil || !errors.Is(cerr, ErrInjected) {
